@@ -3,6 +3,7 @@
 //! note: MPP completion condition (check_incoming_mpp_part), its mirror in the MPP timeout (check_mpp_timeout), and the on-chain claim deadline test of one part (MppPart::check_onchain_timeout)
 //! trusted: R5: the generic H: HasMppPart + Ord is instantiated with MppPart (one of the two call-site types; its HasMppPart impl is extracted and verified); `impl Iterator<Item=&mut MppPart>` is instantiated as the elements of a Vec<MppPart> (the call sites pass iter_mut() of a vector); ChannelManager self stub (the body reads only self.logger, removed by R3)
 //! trusted: R6: `.iter().map(|h| V).sum()` and `.iter_mut().for_each(|h| S)` and `for h in <iter_mut>` become index loops carrying the closure body verbatim; sort_parts() is an external_body wrapper for Vec::sort (a permutation); RecipientOnionFields is a skeleton {total_mpp_amount_msat} and check_merge is external_body (keeps total_mpp_amount_msat, Ok only if both totals agree); HTLCPreviousHopData, PaymentHash opaque
+//! trusted: R15 (statement slicing): handle_claimable_htlc works under the claimable_payments mutex with events and HashMap entries; the unit extracts the `let claim_deadline = Some(match <min of part expiries> {..} - HTLC_FAIL_BACK_BUFFER)` statement verbatim (the `.iter().map(..).min()` chain rewritten by R6 into a loop) as a function of the part list; ClaimableHTLC skeleton {mpp_part}
 //! assume: representation invariant of an accumulating payment: the intended sum already held is < MAX_VALUE_MSAT, every part's intended value < MAX_VALUE_MSAT, the sum of received values fits u64; timer_ticks < 255; cltv_expiry >= HTLC_FAIL_BACK_BUFFER (implied by acceptance)
 use vstd::prelude::*;
 verus! {
@@ -234,6 +235,75 @@ impl ChannelManager {
     if total_intended_recvd_value >= total_mpp_value {
 //@with
     if total_intended_recvd_value > total_mpp_value {
+//@end
+
+
+// ---- the claim deadline advertised in PaymentClaimable (R15 slice of handle_claimable_htlc) ----
+pub struct ClaimableHTLC { pub mpp_part: MppPart }
+pub open spec fn min_expiry(s: Seq<ClaimableHTLC>) -> int decreases s.len() {
+    if s.len() == 0 { 0x1_0000_0000 } else { let m = min_expiry(s.drop_last()); if (s.last().mpp_part.cltv_expiry as int) < m { s.last().mpp_part.cltv_expiry as int } else { m } }
+}
+pub proof fn lemma_min_expiry(s: Seq<ClaimableHTLC>)
+    ensures forall|k: int| 0 <= k < s.len() ==> min_expiry(s) <= (#[trigger] s[k]).mpp_part.cltv_expiry,
+        s.len() > 0 ==> exists|k: int| 0 <= k < s.len() && min_expiry(s) == (#[trigger] s[k]).mpp_part.cltv_expiry,
+    decreases s.len()
+{
+    if s.len() > 0 {
+        lemma_min_expiry(s.drop_last());
+        assert forall|k: int| 0 <= k < s.len() implies min_expiry(s) <= (#[trigger] s[k]).mpp_part.cltv_expiry by {
+            if k < s.len() - 1 { assert(s.drop_last()[k] == s[k]); }
+        }
+        if (s.last().mpp_part.cltv_expiry as int) < min_expiry(s.drop_last()) {
+            assert(s[s.len() - 1] == s.last());
+            assert(min_expiry(s) == s[s.len() - 1].mpp_part.cltv_expiry);
+        } else {
+            // the minimum is attained in the prefix (which is non-empty, else min_expiry(prefix) = 2^32 would exceed any u32)
+            assert(s.drop_last().len() > 0);
+            let k = choose|k: int| 0 <= k < s.drop_last().len() && min_expiry(s.drop_last()) == (#[trigger] s.drop_last()[k]).mpp_part.cltv_expiry;
+            assert(s[k] == s.drop_last()[k]);
+            assert(min_expiry(s) == s[k].mpp_part.cltv_expiry);
+        }
+    }
+}
+//@extract lightning/src/ln/channelmanager.rs :: impl ChannelManager :: fn handle_claimable_htlc
+//@rw R15
+    fn handle_claimable_htlc($params:any) -> $ret { $pre:any match self.check_incoming_mpp_part($args) { Ok(true) => { $p2:any let claim_deadline = Some( match claimable_payment.htlcs.iter().map(|$h:ident| $v).min() { Some($d:ident) => $sd, None => { $dbg:any; htlc_expiry }, } - HTLC_FAIL_BACK_BUFFER, ); $q2:any }, $arms:any } }
+//@with
+    fn advertised_claim_deadline(htlcs: &Vec<ClaimableHTLC>, htlc_expiry: u32) -> Option<u32> {
+        Some(
+            match { // R6: htlcs.iter().map(|$h| V).min()
+                let mut __m: Option<u32> = None; let mut __i: usize = 0;
+                while __i < htlcs.len()
+                    invariant __i <= htlcs.len(), __i == 0 ==> __m is None,
+                        __i > 0 ==> __m is Some && __m->Some_0 as int == min_expiry(htlcs@.take(__i as int)),
+                    decreases htlcs.len() - __i
+                {
+                    proof { assert(htlcs@.take(__i as int + 1).drop_last() =~= htlcs@.take(__i as int)); assert(htlcs@.take(0) =~= Seq::<ClaimableHTLC>::empty()); }
+                    let $h = &htlcs[__i];
+                    let __v: u32 = $v;
+                    __m = match __m { None => Some(__v), Some(__c) => if __v < __c { Some(__v) } else { Some(__c) } };
+                    __i = __i + 1;
+                }
+                proof { assert(htlcs@.take(htlcs@.len() as int) =~= htlcs@); }
+                __m
+            } { Some($d) => $sd, None => { htlc_expiry }, } - HTLC_FAIL_BACK_BUFFER,
+        )
+    }
+//@ret r
+//@requires
+    htlcs@.len() >= 1, forall|k: int| 0 <= k < htlcs@.len() ==> (#[trigger] htlcs@[k]).mpp_part.cltv_expiry >= HTLC_FAIL_BACK_BUFFER,
+//@ensures P C04 the-advertised-claim-deadline-is-the-earliest-part-expiry-less-the-fail-back-buffer
+    r is Some,
+    // the deadline is at or below every part's own on-chain time-out height, so no part has timed out at any height strictly below it ...
+    forall|k: int| 0 <= k < htlcs@.len() ==> r->Some_0 as int <= (#[trigger] htlcs@[k]).mpp_part.cltv_expiry as int - HTLC_FAIL_BACK_BUFFER as int,
+    // ... and at the deadline itself some part does (the node then fails the payment back itself)
+    exists|k: int| 0 <= k < htlcs@.len() && r->Some_0 as int == (#[trigger] htlcs@[k]).mpp_part.cltv_expiry as int - HTLC_FAIL_BACK_BUFFER as int,
+//@at body_start
+    proof { lemma_min_expiry(htlcs@); }
+//@mutant deadline_from_the_latest_part
+    Some(claim_deadline) => claim_deadline,
+//@with
+    Some(claim_deadline) => claim_deadline + 1,
 //@end
 
 // (P) the two conditions "match exactly" (the code comments demand it): a set is complete for check_incoming_mpp_part
